@@ -1,7 +1,9 @@
 """C11 - mirroring a query mirrors its first-pass alignment (strand-sibling agreement, R-TERM).
 
   C11.1  label numbering: forward 1+shift ascending, reverse len+shift descending, coordinate length-1-p (as C02.5)
-  C11.2  the chainer's strand-dependent query distance is antisymmetric between strands (as C14.3)
+  C11.2  the chainer's join score does not depend on the strand: reverse-strand query coordinates are mirrored (C11.1) and
+         ascend along a chain exactly like forward ones, so the query distance is current start - previous end on both
+         strands and no quantity of getScore reads the strand flag (as C14.3; the tree negated it on '-' before fix F5)
   C11.3  row header: query start/end exchanged on the reverse strand (as C02.3)
   C11.4  the reverse strand is the full reversal of the forward bit vector, applied to the query only; both strands go
          through getInitialAlignment with otherwise identical arguments; the strand flag is carried unchanged from the
@@ -24,7 +26,7 @@ def run(ck):
     ctx = ck.ctx
     p = ctx.p
     ck.clause("C11.1", "label numbering and mirrored coordinates on both strands")
-    ck.clause("C11.2", "strand-aware query distance in chaining is antisymmetric")
+    ck.clause("C11.2", "the join score is strand independent (mirrored query coordinates ascend on both strands)")
     ck.clause("C11.3", "row header exchanges query start/end on the reverse strand")
     ck.clause("C11.4", "reverse strand = reversed query vector; identical handling of both strands; strand flag carried through")
     numbering(ck, "C11.1")
@@ -38,30 +40,26 @@ def run(ck):
     found = False
     for pa in explore(ck, fn):
         for e in pa.events:
-            if e.kind == "assign" and e.term[0] == "select" and e.term[1] == T.mk_attr(V(cur), "reverse"):
+            if e.kind != "assign":
+                continue
+            subs = list(T.subterms(e.term))
+            w = where(fn, e.node)
+            name = e.node.targets[0].id if isinstance(e.node, ast.Assign) and isinstance(e.node.targets[0], ast.Name) else "?"
+            reads_strand = [x for x in subs if x[0] == "attr" and x[2] in ("reverse", "reverseStrand")]
+            ck.judge(not reads_strand, "C11.2", short(fn) + ":" + name + ":strand-independent", w,
+                     "no quantity of the join score reads the strand flag: both strands present ascending coordinates, a "
+                     "strand-dependent term scores a query and its mirror image differently",
+                     found=T.show(e.term)[:240])
+            mentions = lambda seg: any(x == T.mk_attr(T.mk_attr(T.mk_attr(V(seg), en + "Position"), "query"), "position")
+                                       for x in subs for en in ("start", "end"))
+            if mentions(prev) and mentions(cur) and not any(x[0] == "call" and x[1] in ("min", "max") for x in subs):
                 found = True
-                w = where(fn, e.node)
-                ck.judge(e.term[2] == rev and e.term[3] == fwd, "C11.2", short(fn) + ":query-distance", w,
-                         "forward: current start - previous end; reverse: previous end - current start",
-                         found=T.show(e.term)[:240], required=T.show(q_dist)[:240])
-                ck.judge(T.p_add(e.term[2], e.term[3]) == C(0), "C11.2", short(fn) + ":antisymmetric", w,
-                         "the two strand variants sum to zero", found=T.show(T.p_add(e.term[2], e.term[3])))
+                ck.judge(e.term == fwd, "C11.2", short(fn) + ":query-distance", w,
+                         "query distance between chained segments = current start - previous end on both strands",
+                         found=T.show(e.term)[:240], required=T.show(fwd)[:240])
         break
     if not found:
-        # no strand-dependent distance at all: the reverse strand is chained with the forward sign
-        ck.violation("C11.2", short(fn) + ":query-distance", fn.where,
-                     "the query distance between chained segments does not depend on the strand (query labels run downwards "
-                     "on the reverse strand, so consecutive segments get a negative distance)",
-                     found="no conditional on <segment>.reverse", required=T.show(q_dist)[:240])
-    # reference-side terms are strand independent
-    for pa in explore(ck, fn):
-        for e in pa.events:
-            if e.kind == "assign" and isinstance(e.node, ast.Assign) and isinstance(e.node.targets[0], ast.Name) \
-                    and "eference" in e.node.targets[0].id:
-                ck.judge(not any(x[0] == "attr" and x[2] == "reverse" for x in T.subterms(e.term)), "C11.2",
-                         short(fn) + ":" + e.node.targets[0].id, where(fn, e.node), "reference-side quantity is strand independent",
-                         found=T.show(e.term)[:120])
-        break
+        raise AnalysisError(f"{fn.where}: the query distance between the two segments was not found in getScore")
     header_derivation(ck, "C11.3")
     # ---- C11.4
     gs = p.find_method("OpticalMap", "getSequence")
